@@ -396,6 +396,9 @@ func redactPipelineStage(stage interface{}, redactFieldNames bool, keyPath []str
 									newPipeline[i] = redactPipelineStage(stage, redactFieldNames, []string{}, isInSearchStage(stage))
 								}
 								newPipelineMap.Set(subK, newPipeline)
+							} else {
+								// Not a sub-pipeline: keep the member instead of dropping it
+								newPipelineMap.Set(subK, subV)
 							}
 						}
 						newMap.Set(redactedKey, newPipelineMap)
